@@ -5,7 +5,7 @@ cd /repo || exit 9
 if ! git diff --quiet -- src; then echo "/repo/src is dirty, refusing"; exit 9; fi
 git apply "/verif/seeded/$S/patch.diff" 2>/dev/null || git apply --3way "/verif/seeded/$S/patch.diff" 2>/dev/null || { echo "APPLY-FAILED $S"; git reset -q --hard HEAD; exit 8; }
 cd /verif
-./mc "$P" "$@" > "/tmp/try_${S}_${P}.log" 2>&1
+MCX_EVIDENCE_DIR=/tmp/try_ev ./mc "$P" "$@" > "/tmp/try_${S}_${P}.log" 2>&1
 rc=$?
 git -C /repo reset -q --hard HEAD
 echo "$S on $P: rc=$rc $(grep -c '^VIOLATION' /tmp/try_${S}_${P}.log) violation line(s); $(grep -m1 '^VIOLATION' -A1 /tmp/try_${S}_${P}.log | tail -1 | cut -c1-300)"
